@@ -1,9 +1,15 @@
 //! Oracles: turn the report of one run into verdicts of the property under check.
+//!
+//! Each check only raises violations of its own property; a run cut short by something that
+//! belongs to another property is counted as inconclusive.
 
+use crate::model::{self, Answer, Fs, RangeClass};
 use crate::outcome::*;
-use crate::rt::{End, Report};
+use crate::rt::{ConnState, End, PanicRec, Report};
 use crate::scenario::*;
 use crate::tree::ManifestEntry;
+use crate::util::{contains, escape_trunc};
+use crate::wire::{self, Parsed, ReqView, Resp};
 
 pub fn v(prop: &str, class: impl Into<String>, detail: impl Into<String>, conn: Option<usize>) -> Verdict {
     Verdict { property: prop.to_string(), class: class.into(), detail: detail.into(), conn }
@@ -20,22 +26,44 @@ pub fn end_name(e: &End) -> &'static str {
 
 /// Shorten a repository path to something stable: `src/...`
 pub fn short_file(f: &str) -> String {
-    if let Some(i) = f.find("/src/") {
-        if f.starts_with("/repo/") {
-            return f[i + 1..].to_string();
-        }
+    if f.starts_with("/repo/") {
+        return f[6..].to_string();
     }
     if let Some(i) = f.rfind("/registry/src/") {
-        // dependency: crate-version/src/file
         let rest = &f[i + 14..];
         if let Some(j) = rest.find('/') {
             return rest[j + 1..].to_string();
         }
     }
+    if let Some(i) = f.find("/library/") {
+        return format!("std{}", &f[i + 8..]);
+    }
     f.to_string()
 }
 
-fn base_outcome(sc: &Scenario, r: &Report) -> Outcome {
+/// stable class of a panic: file + message with numbers blanked (line numbers shift with edits)
+pub fn panic_class(p: &PanicRec) -> String {
+    let mut m = String::new();
+    let mut last_hash = false;
+    for ch in p.msg.chars().take(90) {
+        if ch.is_ascii_digit() {
+            if !last_hash {
+                m.push('#');
+            }
+            last_hash = true;
+        } else {
+            last_hash = false;
+            m.push(if ch.is_ascii_graphic() { ch } else { '_' });
+        }
+    }
+    format!("panic.{}.{}", short_file(&p.file), m)
+}
+
+pub fn panic_text(p: &PanicRec) -> String {
+    format!("panic at {}:{}: {}", short_file(&p.file), p.line, escape_trunc(p.msg.as_bytes(), 160))
+}
+
+fn base_outcome(r: &Report) -> Outcome {
     let mut o = Outcome::default();
     o.sig = r.sig;
     o.events = r.events;
@@ -48,19 +76,129 @@ fn base_outcome(sc: &Scenario, r: &Report) -> Outcome {
     }
     for c in &r.conns {
         for f in &c.fired {
-            // strip offsets so that kinds aggregate
             let k = f.split(|ch| ch == '@' || ch == ':').next().unwrap_or(f).to_string();
             *o.fired.entry(k).or_insert(0) += 1;
         }
     }
-    let _ = sc;
+    let caught = r.panics.len().saturating_sub(r.threads.iter().filter(|t| t.panic.is_some()).count());
+    if caught > 0 {
+        o.reach.insert("panic_caught_by_a_guard".into(), caught as u64);
+    }
     o
 }
 
+/// Everything the per-property oracles share for one run.
+pub struct Ctx<'a> {
+    pub sc: &'a Scenario,
+    pub r: &'a Report,
+    pub fs: Fs,
+    pub parsed: Vec<Parsed>,
+    pub reqs: Vec<ReqView>,
+}
+
+impl<'a> Ctx<'a> {
+    fn new(sc: &'a Scenario, r: &'a Report) -> Ctx<'a> {
+        let fs = Fs::from_spec(&sc.tree);
+        let parsed = r.conns.iter().map(|c| wire::parse_response(&c.outbound)).collect();
+        let reqs = (0..r.conns.len())
+            .map(|i| if i < sc.conns.len() { wire::view_request(&sc.conns[i].request.0) } else { wire::view_request(&r.conns[i].inbound) })
+            .collect();
+        Ctx { sc, r, fs, parsed, reqs }
+    }
+    fn resp(&self, i: usize) -> Option<&Resp> {
+        self.parsed[i].resp.as_ref()
+    }
+    fn scripted(&self) -> std::ops::Range<usize> {
+        0..self.r.n_scripted
+    }
+    fn bodiless_method(&self, i: usize) -> bool {
+        let m = self.reqs[i].method.as_str();
+        m == "HEAD" || m == "OPTIONS"
+    }
+    /// the response is one complete message: head, and a body as long as Content-Length says
+    fn complete(&self, i: usize) -> Result<(), String> {
+        let c = &self.r.conns[i];
+        if c.outbound.is_empty() {
+            return Err("no bytes were written".into());
+        }
+        let resp = match self.resp(i) {
+            Some(r) => r,
+            None => return Err(format!("response head incomplete after {} bytes", c.outbound.len())),
+        };
+        if !self.bodiless_method(i) {
+            if let Some(cl) = resp.get("Content-Length") {
+                if let Ok(n) = cl.trim().parse::<usize>() {
+                    if resp.body.len() < n {
+                        return Err(format!("body has {} of the {} bytes announced by Content-Length", resp.body.len(), n));
+                    }
+                }
+            }
+        }
+        Ok(())
+    }
+    /// the request bytes are an ordinary well-formed HTTP/1.1 request (oracles that interpret
+    /// the request must not be applied to what the shrinker may have cut to pieces)
+    fn wellformed_req(&self, i: usize) -> bool {
+        let q = &self.reqs[i];
+        const METHODS: [&str; 9] = ["GET", "HEAD", "POST", "PUT", "DELETE", "CONNECT", "OPTIONS", "TRACE", "PATCH"];
+        q.line_ok && q.head_complete && q.head_utf8 && q.version == "HTTP/1.1" && METHODS.contains(&q.method.as_str()) && q.target.starts_with('/')
+    }
+    fn panic_for_conn(&self, i: usize) -> Option<&PanicRec> {
+        self.r.panics.iter().find(|p| p.conn == Some(i))
+    }
+}
+
+fn kind_of(cx: &Ctx, i: usize) -> String {
+    let c = &cx.r.conns[i];
+    if c.outbound.is_empty() {
+        return "none".into();
+    }
+    match cx.resp(i) {
+        None => "partial_head".into(),
+        Some(r) => {
+            let base = r.code.to_string();
+            if r.code == 400 {
+                if c.fired.iter().any(|f| f.starts_with("read_err")) {
+                    return "400_read_error".into();
+                }
+                if c.fired.iter().any(|f| f == "handler_err") {
+                    return "400_handler_error".into();
+                }
+                return "400".into();
+            }
+            if r.code == 206 {
+                let multi = r.get("Content-Type").map(|t| t.to_ascii_lowercase().starts_with("multipart/byteranges")).unwrap_or(false);
+                return if multi { "206_multipart".into() } else { "206_single".into() };
+            }
+            base
+        }
+    }
+}
+
 pub fn judge(sc: &Scenario, r: &Report) -> Outcome {
-    let mut o = base_outcome(sc, r);
+    let mut o = base_outcome(r);
+    if sc.property == "C07" {
+        c07(sc, r, &mut o);
+        return o;
+    }
+    let cx = Ctx::new(sc, r);
+    for i in 0..r.conns.len() {
+        if r.conns[i].queued {
+            *o.kinds.entry(kind_of(&cx, i)).or_insert(0) += 1;
+        }
+    }
     match sc.property.as_str() {
-        "C07" => c07(sc, r, &mut o),
+        "C01" => c01(&cx, &mut o),
+        "C02" => c02(&cx, &mut o),
+        "C03" => c03(&cx, &mut o),
+        "C04" => c04(&cx, &mut o),
+        "C05" => c05(&cx, &mut o),
+        "C06" => c06(&cx, &mut o),
+        "C08" => c08(&cx, &mut o),
+        "C09" => c09(&cx, &mut o),
+        "C10" => c10(&cx, &mut o),
+        "C11" => c11(&cx, &mut o),
+        "C13" => c13(&cx, &mut o),
         other => {
             o.harness_error = Some(format!("no oracle for property {}", other));
         }
@@ -86,12 +224,12 @@ pub fn crash_outcome(sc: &Scenario, sig: i32, _partial: &[u8]) -> Outcome {
             o.verdicts.push(v(
                 &sc.property,
                 format!("process_crash.{}", name),
-                format!("the server process was killed by {} ({}) during the run", name, sig),
+                format!("the server process was killed by {} ({}) during the run (stack exhaustion or abort)", name, sig),
                 None,
             ));
         }
         _ => {
-            o.inconclusive = Some(format!("process crash {}", name));
+            o.inconclusive = Some(format!("process crash {} (C04)", name));
         }
     }
     o
@@ -109,13 +247,363 @@ pub fn manifest_verdicts(sc: &Scenario, before: &[ManifestEntry], after: &[Manif
     }
 }
 
-pub fn abort_panic(sc: &Scenario, what: &str, out: &mut Outcome) {
-    let _ = sc;
+pub fn abort_panic(_sc: &Scenario, what: &str, out: &mut Outcome) {
     if what.starts_with("/verif/") || what.contains("/shuttle") {
         out.harness_error = Some(format!("harness panic: {}", what));
     } else {
-        out.inconclusive = Some(format!("execution aborted by panic outside a seam thread: {}", what));
+        out.inconclusive = Some("execution aborted by a panic outside a seam thread".into());
         out.notes.push(what.to_string());
+    }
+}
+
+fn run_cut_short(cx: &Ctx, o: &mut Outcome) -> bool {
+    if cx.r.end != End::Completed {
+        o.inconclusive = Some(format!("run ended with {} (C04/C06)", end_name(&cx.r.end)));
+        return true;
+    }
+    false
+}
+
+// ------------------------------------------------------------------------------------------- C04
+
+/// Request bytes that no HTTP server can parse: the request line lacks a part, names no known
+/// method or no HTTP version, or is not UTF-8. (Deliberately narrow: anything arguable is left
+/// out so that the oracle never demands more than the statement.)
+fn clearly_unparseable(req: &[u8], buf: usize) -> Option<&'static str> {
+    let seen = &req[..req.len().min(buf)];
+    let line_end = seen.iter().position(|&c| c == b'\n').unwrap_or(seen.len());
+    let line = &seen[..line_end];
+    let line = if line.ends_with(b"\r") { &line[..line.len() - 1] } else { line };
+    let s = match std::str::from_utf8(line) {
+        Ok(s) => s,
+        Err(_) => return Some("request line is not UTF-8"),
+    };
+    let f: Vec<&str> = s.split(' ').filter(|x| !x.is_empty()).collect();
+    if f.len() < 3 {
+        return Some("request line has fewer than three parts");
+    }
+    const METHODS: [&str; 9] = ["GET", "HEAD", "POST", "PUT", "DELETE", "CONNECT", "OPTIONS", "TRACE", "PATCH"];
+    if !METHODS.contains(&f[0].to_ascii_uppercase().as_str()) {
+        return Some("unknown method");
+    }
+    if !f[f.len() - 1].to_ascii_uppercase().starts_with("HTTP/") {
+        return Some("no HTTP version");
+    }
+    None
+}
+
+fn c04(cx: &Ctx, o: &mut Outcome) {
+    o.evaluated = true;
+    let r = cx.r;
+    let mut cited: Vec<usize> = vec![]; // indices into r.panics already named by a verdict
+    for i in cx.scripted() {
+        let sc_conn = &cx.sc.conns[i];
+        let c = &r.conns[i];
+        let mut f = sc_conn.faults.clone();
+        f.handler_err = false;
+        let entitled = sc_conn.strict_delivery() && f.is_clean() && !sc_conn.request.0.is_empty();
+        let cause = |cited: &mut Vec<usize>| -> (String, String) {
+            match r.panics.iter().position(|p| p.conn == Some(i)) {
+                Some(k) => {
+                    cited.push(k);
+                    (format!(".{}", panic_class(&r.panics[k])), format!(" ({})", panic_text(&r.panics[k])))
+                }
+                None => (".dropped".to_string(), String::new()),
+            }
+        };
+        if entitled {
+            let req_txt = escape_trunc(&sc_conn.request.0, 120);
+            match cx.complete(i) {
+                Err(why) => {
+                    if c.read_calls == 0 && (r.end != End::Completed || r.threads.iter().any(|t| !t.alive)) {
+                        // never reached a worker: a consequence of what is reported below (C06's subject)
+                        continue;
+                    }
+                    let (cl, txt) = cause(&mut cited);
+                    let class = if c.outbound.is_empty() { format!("no_response{}", cl) } else { format!("incomplete_response{}", cl) };
+                    o.verdicts.push(v("C04", class, format!("request {:?} ({}): {}{}", req_txt, sc_conn.class, why, txt), Some(i)));
+                }
+                Ok(()) => {
+                    let resp = cx.resp(i).unwrap();
+                    if !cx.bodiless_method(i) {
+                        if let Some(n) = resp.get("Content-Length").and_then(|x| x.trim().parse::<usize>().ok()) {
+                            if resp.body.len() > n {
+                                o.verdicts.push(v("C04", "more_than_one_response", format!("request {:?}: {} bytes follow the response body announced as {} bytes", req_txt, resp.body.len() - n, n), Some(i)));
+                            }
+                        }
+                    }
+                    let is_err = resp.code >= 400 && resp.code < 600;
+                    if sc_conn.faults.handler_err && c.fired.iter().any(|x| x == "handler_err") {
+                        if !is_err {
+                            o.verdicts.push(v("C04", "status_not_error.handler_error", format!("the application handler reported an error but the response status is {}", resp.code), Some(i)));
+                        }
+                    } else if let Some(why) = clearly_unparseable(&sc_conn.request.0, c.first_read_buf.max(1)) {
+                        if !is_err {
+                            o.verdicts.push(v("C04", "status_not_error.unparseable_request", format!("request {:?} ({}) was answered with status {}", req_txt, why, resp.code), Some(i)));
+                        }
+                    }
+                    // a second response written after the first one
+                    if c.writes.iter().filter(|w| w.ret > 0).count() > 1 && resp.get("Content-Length").is_none() && !resp.body.is_empty() {
+                        if contains(&resp.body, b"HTTP/1.1 ") && !resp.get("Content-Type").map(|t| t.starts_with("multipart/")).unwrap_or(false) && contains(&resp.body, b"\r\nX-Content-Type-Options:") {
+                            o.verdicts.push(v("C04", "more_than_one_response", format!("request {:?}: a second response head follows the first", req_txt), Some(i)));
+                        }
+                    }
+                }
+            }
+        } else if let Some(k) = r.panics.iter().position(|p| p.conn == Some(i)) {
+            // relaxed regime: whatever the transport did, no panic
+            if !cited.contains(&k) {
+                cited.push(k);
+                o.verdicts.push(v("C04", format!("panic_under_fault.{}", panic_class(&r.panics[k])), format!("connection {} (fired: {:?}): {}", i, c.fired, panic_text(&r.panics[k])), Some(i)));
+            }
+        }
+    }
+    for t in &r.threads {
+        if let Some(p) = &t.panic {
+            let k = r.panics.iter().position(|q| q.file == p.file && q.line == p.line && q.msg == p.msg);
+            if k.map(|k| !cited.contains(&k)).unwrap_or(true) {
+                o.verdicts.push(v("C04", format!("thread_died.{}", panic_class(p)), format!("thread '{}' ended: {}", t.name, panic_text(p)), p.conn));
+            }
+        }
+    }
+    match &r.end {
+        End::Completed => {
+            if let Some(f) = r.followup_id {
+                let ok = cx.complete(f).is_ok() && cx.resp(f).map(|x| x.code == 200).unwrap_or(false);
+                if !ok {
+                    o.verdicts.push(v("C04", "followup_not_answered", format!("the valid request after the history got: {:?}", escape_trunc(&r.conns[f].outbound, 80)), Some(f)));
+                }
+            }
+        }
+        End::ServerExited => {
+            o.verdicts.push(v("C04", "server_exited", "the accept loop returned: the server process would exit", None));
+        }
+        End::Deadlock(_) | End::StepLimit => {
+            if o.verdicts.is_empty() {
+                o.verdicts.push(v("C04", "stuck", format!("the run ended with {} although no panic was seen; connections without response: {:?}", end_name(&r.end), cx.scripted().filter(|&i| r.conns[i].outbound.is_empty()).collect::<Vec<_>>()), None));
+            } else if r.probe_started || r.followup_id.is_some() || true {
+                // the cause is already reported; the unanswered follow-up is its consequence
+            }
+        }
+    }
+}
+
+// ------------------------------------------------------------------------------------------- C05
+
+fn normalise(bytes: &[u8]) -> Vec<u8> {
+    // blank the value of the timestamp header
+    let key = b"Date-Unix-Epoch-Nanos: ";
+    let mut out = bytes.to_vec();
+    if let Some(i) = crate::util::find(&out, key) {
+        let start = i + key.len();
+        let mut j = start;
+        while j < out.len() && out[j] != b'\r' {
+            out[j] = b'X';
+            j += 1;
+        }
+    }
+    out
+}
+
+/// responses whose body is a form echo list their fields in HashMap order: sort the lines
+fn normalise_echo(bytes: &[u8]) -> Vec<u8> {
+    let n = normalise(bytes);
+    if let Some(i) = crate::util::find(&n, b"\r\n\r\n") {
+        let (head, body) = n.split_at(i + 4);
+        let mut lines: Vec<&[u8]> = body.split(|&c| c == b'\n').collect();
+        lines.sort();
+        let mut out = head.to_vec();
+        for l in lines {
+            out.extend_from_slice(l);
+            out.push(b'\n');
+        }
+        return out;
+    }
+    n
+}
+
+fn wellformed_verdicts(cx: &Ctx, i: usize, o: &mut Outcome) {
+    let c = &cx.r.conns[i];
+    let p = &cx.parsed[i];
+    let kind = kind_of(cx, i);
+    let req_txt = escape_trunc(&cx.reqs_bytes(i), 100);
+    for d in &p.deviations {
+        let class = d.split(':').next().unwrap_or(d).to_string();
+        if class == "head.incomplete" || class == "empty" {
+            continue; // completeness is C04's
+        }
+        if class == "header.nul_inside" {
+            continue; // the statement forbids line breaks inside a header line, not NUL
+        }
+        o.verdicts.push(v("C05", format!("wellformed.{}", class), format!("request {:?} -> {} ({})", req_txt, d, kind), Some(i)));
+    }
+    let resp = match &p.resp {
+        Some(r) => r,
+        None => return,
+    };
+    for name in ["Content-Length", "Content-Type", "Content-Range", "Transfer-Encoding"] {
+        if resp.count(name) > 1 {
+            o.verdicts.push(v("C05", format!("framing_header_twice.{}", name), format!("request {:?}: {} appears {} times", req_txt, name, resp.count(name)), Some(i)));
+        }
+    }
+    let method = cx.reqs[i].method.as_str();
+    let cl = resp.get("Content-Length").map(|x| x.trim().parse::<usize>());
+    if method == "HEAD" || method == "OPTIONS" {
+        if !resp.body.is_empty() {
+            o.verdicts.push(v("C05", format!("body_on_{}", method.to_ascii_lowercase()), format!("request {:?}: {} body bytes on a {} response", req_txt, resp.body.len(), method), Some(i)));
+        }
+        if method == "OPTIONS" {
+            if let Some(Ok(n)) = cl {
+                if n != resp.body.len() {
+                    o.verdicts.push(v("C05", "content_length.options_announces_absent_body", format!("request {:?}: Content-Length {} on an OPTIONS response with {} body bytes", req_txt, n, resp.body.len()), Some(i)));
+                }
+            }
+        }
+    } else {
+        match cl {
+            Some(Ok(n)) => {
+                // only a fully delivered response can be measured (completeness itself is C04's)
+                let fully = c.writes.iter().all(|w| w.ret >= 0) && c.server_closed;
+                if n != resp.body.len() && (resp.body.len() > n || fully) && cx.complete(i).is_ok() {
+                    o.verdicts.push(v("C05", "content_length.mismatch", format!("request {:?}: Content-Length {} but {} body bytes ({})", req_txt, n, resp.body.len(), kind), Some(i)));
+                }
+            }
+            Some(Err(_)) => {
+                o.verdicts.push(v("C05", "content_length.not_a_number", format!("request {:?}: Content-Length {:?}", req_txt, resp.get("Content-Length")), Some(i)));
+            }
+            None => {}
+        }
+    }
+}
+
+impl<'a> Ctx<'a> {
+    fn reqs_bytes(&self, i: usize) -> Vec<u8> {
+        if i < self.sc.conns.len() {
+            self.sc.conns[i].request.0.clone()
+        } else {
+            self.r.conns[i].inbound.clone()
+        }
+    }
+}
+
+fn c05(cx: &Ctx, o: &mut Outcome) {
+    let r = cx.r;
+    if run_cut_short(cx, o) {
+        return;
+    }
+    for i in cx.scripted() {
+        let sc_conn = &cx.sc.conns[i];
+        let c = &r.conns[i];
+        if !sc_conn.strict_delivery() || !sc_conn.faults.only_cuts() {
+            continue;
+        }
+        if c.outbound.is_empty() {
+            o.inconclusive = Some("a connection got no response (C04)".into());
+            continue;
+        }
+        o.evaluated = true;
+        if sc_conn.faults.cuts == Cuts::None {
+            wellformed_verdicts(cx, i, o);
+        }
+        if let Some(t) = sc_conn.twin {
+            if t >= r.conns.len() || r.conns[t].outbound.is_empty() {
+                continue;
+            }
+            let same_request = cx.sc.conns[t].request == sc_conn.request;
+            if same_request {
+                // delivered in full however the transport takes it
+                let a = normalise_echo(&r.conns[t].outbound);
+                let b = normalise_echo(&c.outbound);
+                if a != b {
+                    let pieces = c.writes.len();
+                    let class = if c.outbound.len() < r.conns[t].outbound.len() { "short_write.response_truncated" } else { "short_write.response_differs" };
+                    o.verdicts.push(v(
+                        "C05",
+                        class,
+                        format!("request {:?}: the transport accepted the response in pieces ({:?}); the peer received {} of {} bytes ({} write calls)", escape_trunc(&sc_conn.request.0, 80), sc_conn.faults.cuts, c.outbound.len(), r.conns[t].outbound.len(), pieces),
+                        Some(i),
+                    ));
+                }
+            } else if let (Some(ra), Some(rb)) = (cx.resp(t), cx.resp(i)) {
+                // client text echoed into the response can never add or split header lines
+                let mut na: Vec<String> = ra.headers.iter().map(|(n, _)| n.to_ascii_lowercase()).collect();
+                let mut nb: Vec<String> = rb.headers.iter().map(|(n, _)| n.to_ascii_lowercase()).collect();
+                na.sort();
+                nb.sort();
+                if na != nb && ra.code == rb.code {
+                    let extra: Vec<&String> = nb.iter().filter(|x| !na.contains(x)).collect();
+                    let missing: Vec<&String> = na.iter().filter(|x| !nb.contains(x)).collect();
+                    o.verdicts.push(v("C05", "reflection.header_lines_changed", format!("request {:?}: hostile header values changed the set of response header lines (added {:?}, missing {:?})", escape_trunc(&sc_conn.request.0, 160), extra, missing), Some(i)));
+                }
+            }
+        }
+    }
+}
+
+// ------------------------------------------------------------------------------------------- C06
+
+fn c06(cx: &Ctx, o: &mut Outcome) {
+    o.evaluated = true;
+    let r = cx.r;
+    let dead: Vec<&crate::rt::ThreadRec> = r.threads.iter().filter(|t| !t.alive && t.name != "accept").collect();
+    let history: String = cx.sc.conns.iter().take(6).map(|c| c.class.clone()).collect::<Vec<_>>().join(",");
+    match &r.end {
+        End::ServerExited => {
+            let mut cause = "unknown".to_string();
+            let mut which = None;
+            for (i, c) in r.conns.iter().enumerate() {
+                for f in &c.fired {
+                    if f.starts_with("accept_err") || f == "local_addr_err" || f == "peer_addr_err" {
+                        cause = f.split(':').next().unwrap_or(f).to_string();
+                        which = Some(i);
+                    }
+                }
+            }
+            o.verdicts.push(v("C06", format!("server_exited.{}", cause), format!("the accept loop returned after connection {:?} ({}): no later connection is served; history [{}]", which, cause, history), which));
+        }
+        End::Completed => {
+            // capacity probe and follow-up must have been answered correctly
+            let want = cx.fs.resolve_from(&cx.fs.root, "probe.txt");
+            let body = match want {
+                model::Res::File(p) => cx.fs.file(&p).cloned(),
+                _ => None,
+            };
+            let mut ids = r.probe_ids.clone();
+            if let Some(f) = r.followup_id {
+                ids.push(f);
+            }
+            for id in ids {
+                let ok = cx.complete(id).is_ok() && cx.resp(id).map(|x| x.code == 200 && Some(&x.body) == body.as_ref()).unwrap_or(false);
+                if !ok {
+                    o.verdicts.push(v("C06", "probe_wrong_answer", format!("after history [{}] the valid probe request was answered with {:?}", history, escape_trunc(&r.conns[id].outbound, 100)), Some(id)));
+                    break;
+                }
+            }
+            // a worker may not be lost even if the probe happened to pass
+            for t in &dead {
+                let cls = t.panic.as_ref().map(panic_class).unwrap_or_else(|| "returned".into());
+                o.verdicts.push(v("C06", format!("capacity_lost.{}", cls), format!("worker '{}' ended during history [{}]{}", t.name, history, t.panic.as_ref().map(|p| format!(": {}", panic_text(p))).unwrap_or_default()), t.panic.as_ref().and_then(|p| p.conn)));
+            }
+        }
+        End::Deadlock(_) | End::StepLimit => {
+            let picked = r.probe_ids.iter().filter(|&&i| r.conns[i].read_calls > 0).count();
+            let where_ = if r.probe_started { format!("capacity probe: {} of {} simultaneous connections were picked up", picked, r.probe_ids.len()) } else { "a connection of the history was never served".to_string() };
+            if dead.is_empty() {
+                let holding: Vec<usize> = (0..r.conns.len()).filter(|&i| r.conns[i].in_process && !r.conns[i].server_closed && !r.conns[i].probe).collect();
+                let fired: Vec<String> = holding.iter().flat_map(|&i| r.conns[i].fired.clone()).collect();
+                let kind = fired.first().map(|f| f.split(|c| c == '@' || c == ':').next().unwrap_or("").to_string()).unwrap_or_else(|| "unknown".into());
+                o.verdicts.push(v("C06", format!("capacity_lost.worker_stuck.{}", kind), format!("{} ({}); connections still holding a worker: {:?} (fired {:?}); history [{}]", where_, end_name(&r.end), holding, fired, history), holding.first().copied()));
+            }
+            let mut seen = vec![];
+            for t in &dead {
+                let cls = t.panic.as_ref().map(panic_class).unwrap_or_else(|| "returned".into());
+                if seen.contains(&cls) {
+                    continue;
+                }
+                seen.push(cls.clone());
+                o.verdicts.push(v("C06", format!("capacity_lost.{}", cls), format!("{}; worker '{}' ended{}; history [{}]", where_, t.name, t.panic.as_ref().map(|p| format!(": {}", panic_text(p))).unwrap_or_default(), history), t.panic.as_ref().and_then(|p| p.conn)));
+            }
+        }
     }
 }
 
@@ -158,10 +646,7 @@ fn c07(sc: &Scenario, r: &Report, o: &mut Outcome) {
             o.verdicts.push(v(
                 "C07",
                 class,
-                format!(
-                    "{}: submitted {} of {} tasks, never started {:?}, unfinished {:?}, max simultaneously inside {} (pool size {})",
-                    what, r.submitted, n, lost, unfinished, r.max_inside, p.size
-                ),
+                format!("{}: submitted {} of {} tasks, never started {:?}, unfinished {:?}, max simultaneously inside {} (pool size {})", what, r.submitted, n, lost, unfinished, r.max_inside, p.size),
                 None,
             ));
         }
@@ -181,3 +666,654 @@ fn c07(sc: &Scenario, r: &Report, o: &mut Outcome) {
         *o.reach.entry("n_tasks_inside_simultaneously".into()).or_insert(0) += 1;
     }
 }
+
+// ------------------------------------------------------------------------------------------- C10
+
+fn c10(cx: &Ctx, o: &mut Outcome) {
+    let r = cx.r;
+    for i in 0..r.conns.len() {
+        let resp = match cx.resp(i) {
+            Some(x) => x,
+            None => continue,
+        };
+        o.evaluated = true;
+        let kind = kind_of(cx, i);
+        let req_txt = escape_trunc(&cx.reqs_bytes(i), 100);
+        let mut need = |name: &str, check: &dyn Fn(&str) -> bool, want: &str| {
+            let all = resp.get_all(name);
+            if all.is_empty() {
+                o.verdicts.push(v("C10", format!("missing.{}.on_{}", name, kind), format!("request {:?}: the {} response has no {} header", req_txt, kind, name), Some(i)));
+            } else if all.len() > 1 {
+                o.verdicts.push(v("C10", format!("twice.{}.on_{}", name, kind), format!("request {:?}: {} appears {} times", req_txt, name, all.len()), Some(i)));
+            } else if !check(all[0]) {
+                o.verdicts.push(v("C10", format!("wrong.{}.on_{}", name, kind), format!("request {:?}: {}: {:?} (expected {})", req_txt, name, all[0], want), Some(i)));
+            }
+        };
+        need("X-Content-Type-Options", &|x| x.eq_ignore_ascii_case("nosniff"), "nosniff");
+        need("X-Frame-Options", &|x| x.eq_ignore_ascii_case("SAMEORIGIN"), "SAMEORIGIN");
+        need("Accept-Ranges", &|x| x.eq_ignore_ascii_case("bytes"), "bytes");
+        need(
+            "Cache-Control",
+            &|x| {
+                let t = model::token_set(x);
+                t.contains(&"no-store".to_string()) && !t.iter().any(|d| d == "public" || d == "immutable" || d.starts_with("s-maxage") || (d.starts_with("max-age=") && d != "max-age=0"))
+            },
+            "a directive list containing no-store and nothing that permits caching",
+        );
+        need("Accept-CH", &|x| !x.trim().is_empty(), "a non-empty client-hint list");
+        need("Vary", &|x| model::token_set(x).contains(&"origin".to_string()), "a list that names Origin");
+    }
+}
+
+// ------------------------------------------------------------------------------------------- C13
+
+fn c13(cx: &Ctx, o: &mut Outcome) {
+    // the manifest comparison happens in the parent after the child has exited; the in-process
+    // monitor reports through the notes of the report
+    o.evaluated = true;
+    for n in crate::fsmon::take_events() {
+        let kind = n.split(' ').next().unwrap_or("mutation").to_string();
+        o.verdicts.push(v("C13", format!("fs_mutation_call.{}", kind), format!("the server issued a filesystem mutation: {}", n), None));
+    }
+    let _ = cx;
+}
+
+// ------------------------------------------------------------------------------------------- C02
+
+fn marker_scan(cx: &Ctx, body: &[u8], allow: &[Vec<String>]) -> Option<String> {
+    for (p, n) in &cx.fs.nodes {
+        if let model::Node::File(bytes) = n {
+            if allow.contains(p) {
+                continue;
+            }
+            // the first line of a generated file is its unique marker
+            if bytes.len() >= 16 && bytes.starts_with(b"MARK-") || bytes.starts_with(b"S3CR3T-") || bytes.starts_with(b"LINKED-") {
+                let end = bytes.iter().position(|&c| c == b'\n').unwrap_or(bytes.len().min(40));
+                if end >= 12 && contains(body, &bytes[..end]) {
+                    return Some(p.join("/"));
+                }
+            }
+        }
+    }
+    None
+}
+
+fn root_404(cx: &Ctx) -> Vec<String> {
+    let mut p = cx.fs.root.clone();
+    p.push("404.html".into());
+    p
+}
+
+/// Compare one GET response with the documented lookup. Returns false when the documentation
+/// does not determine the answer.
+fn check_lookup(cx: &Ctx, prop: &str, i: usize, o: &mut Outcome) -> bool {
+    let rq = &cx.reqs[i];
+    let lk = model::lookup(&cx.fs, &rq.target);
+    if lk.allowed.is_empty() {
+        return false;
+    }
+    let resp = match cx.resp(i) {
+        Some(r) => r,
+        None => return false,
+    };
+    let req_txt = format!("GET {}", rq.target);
+    let files: Vec<&Vec<String>> = lk.allowed.iter().filter_map(|a| if let Answer::File(p) = a { Some(p) } else { None }).collect();
+    let nf_ok = lk.allowed.contains(&Answer::NotFound);
+    match resp.code {
+        200 => {
+            let hit = files.iter().find(|p| cx.fs.file(p).map(|b| *b == resp.body).unwrap_or(false));
+            match hit {
+                None => {
+                    if files.is_empty() {
+                        o.verdicts.push(v(prop, format!("lookup.{}.served_200_instead_of_404", lk.note.replace(' ', "_")), format!("{}: nothing is selected by the documented lookup ({}) but the answer is 200 with {} bytes{}", req_txt, lk.note, resp.body.len(), marker_scan(cx, &resp.body, &[]).map(|m| format!(" from {}", m)).unwrap_or_default()), Some(i)));
+                    } else {
+                        let want = cx.fs.file(files[0]).map(|b| b.len()).unwrap_or(0);
+                        let other = marker_scan(cx, &resp.body, &[files[0].clone()]);
+                        o.verdicts.push(v(prop, format!("lookup.{}.wrong_bytes", lk.note.replace(' ', "_")), format!("{}: expected the {} bytes of {} ({}), got {} bytes{}", req_txt, want, files[0].join("/"), lk.note, resp.body.len(), other.map(|m| format!(" containing the marker of {}", m)).unwrap_or_default()), Some(i)));
+                    }
+                }
+                Some(p) => {
+                    let len = cx.fs.file(p).unwrap().len();
+                    match resp.get("Content-Length").and_then(|x| x.trim().parse::<usize>().ok()) {
+                        Some(n) if n == len => {}
+                        other => o.verdicts.push(v(prop, "content_length.not_file_size", format!("{}: Content-Length {:?} for a file of {} bytes", req_txt, other, len), Some(i))),
+                    }
+                    let name = p.last().cloned().unwrap_or_default();
+                    if let Some(ext) = model::extension(&name) {
+                        if let Some(ok) = model::media_types(ext) {
+                            let got = model::essence(resp.get("Content-Type").unwrap_or(""));
+                            if !ok.contains(&got.as_str()) {
+                                o.verdicts.push(v(prop, format!("media_type.{}", ext), format!("{}: file {} is labelled {:?}, registered type for .{} is {:?}", req_txt, name, got, ext, ok), Some(i)));
+                            }
+                        }
+                    }
+                }
+            }
+        }
+        404 => {
+            if !nf_ok {
+                o.verdicts.push(v(prop, format!("lookup.{}.got_404", lk.note.replace(' ', "_")), format!("{}: the documented lookup selects {} ({}) but the answer is 404", req_txt, files[0].join("/"), lk.note), Some(i)));
+            }
+            if let Some(m) = marker_scan(cx, &resp.body, &[root_404(cx)]) {
+                o.verdicts.push(v(prop, "not_found.body_contains_file_content", format!("{}: the 404 body contains the content of {}", req_txt, m), Some(i)));
+            }
+        }
+        code => {
+            o.verdicts.push(v(prop, format!("lookup.{}.got_{}", lk.note.replace(' ', "_"), code), format!("{}: expected {:?} ({}), got status {}", req_txt, lk.allowed.iter().map(|a| match a { Answer::NotFound => "404".to_string(), Answer::File(p) => format!("200 {}", p.join("/")) }).collect::<Vec<_>>(), lk.note, code), Some(i)));
+        }
+    }
+    true
+}
+
+fn c02(cx: &Ctx, o: &mut Outcome) {
+    if run_cut_short(cx, o) {
+        return;
+    }
+    let mut by_ext: std::collections::BTreeMap<String, (String, usize)> = Default::default();
+    for i in cx.scripted() {
+        let sc_conn = &cx.sc.conns[i];
+        if !sc_conn.strict_delivery() || !sc_conn.faults.only_cuts() || cx.reqs[i].method != "GET" || cx.reqs[i].header("Range").is_some() || !cx.wellformed_req(i) {
+            continue;
+        }
+        if cx.complete(i).is_err() {
+            o.inconclusive = Some("a connection got no complete response (C04/C05)".into());
+            continue;
+        }
+        if check_lookup(cx, "C02", i, o) {
+            o.evaluated = true;
+        }
+        // metamorphic: same extension, same type - whatever the directory, basename or content
+        if let Some(resp) = cx.resp(i) {
+            if resp.code == 200 {
+                let lk = model::lookup(&cx.fs, &cx.reqs[i].target);
+                if let Some(Answer::File(p)) = lk.allowed.iter().find(|a| matches!(a, Answer::File(_))) {
+                    if let Some(ext) = model::extension(p.last().map(|s| s.as_str()).unwrap_or("")) {
+                        let got = model::essence(resp.get("Content-Type").unwrap_or(""));
+                        match by_ext.get(ext) {
+                            None => {
+                                by_ext.insert(ext.to_string(), (got, i));
+                            }
+                            Some((t, j)) => {
+                                if *t != got {
+                                    o.verdicts.push(v("C02", "media_type.same_extension_different_type", format!("files with extension .{} were labelled {:?} (connection {}) and {:?} (connection {})", ext, t, j, got, i), Some(i)));
+                                }
+                            }
+                        }
+                    }
+                }
+            }
+        }
+    }
+}
+
+// ------------------------------------------------------------------------------------------- C03
+
+/// Is (label, bytes) a correctly labelled slice of `file`? Err = (kind, explanation).
+fn check_slice(resp_label: &str, body: &[u8], file: &[u8]) -> Result<(u64, u64), (&'static str, String)> {
+    let (a, b, size) = wire::parse_content_range(resp_label).ok_or_else(|| ("unparsable_label", format!("unparsable Content-Range {:?}", resp_label)))?;
+    let l = file.len() as u64;
+    if size != Some(l) {
+        return Err(("label_wrong_file_size", format!("Content-Range {:?} does not name the true file size {}", resp_label, l)));
+    }
+    let n = body.len() as u64;
+    if b == a + n && a + n <= l && body == &file[a as usize..(a + n) as usize] {
+        return Err(("label_end_one_past_last_byte", format!("Content-Range {:?} names bytes {}-{} but the {} bytes sent are those at {}-{}: the last offset of the label is one past the last byte", resp_label, a, b, n, a, (a + n) as i128 - 1)));
+    }
+    if a > b || b >= l {
+        return Err(("label_outside_file", format!("Content-Range {:?} names offsets outside the file of {} bytes", resp_label, l)));
+    }
+    if n != b - a + 1 {
+        return Err(("label_length_mismatch", format!("Content-Range {:?} names {} bytes but {} were sent", resp_label, b - a + 1, n)));
+    }
+    if body != &file[a as usize..=b as usize] {
+        return Err(("bytes_from_other_offsets", format!("the bytes sent are not the bytes at offsets {}-{}", a, b)));
+    }
+    Ok((a, b))
+}
+
+fn c03(cx: &Ctx, o: &mut Outcome) {
+    if run_cut_short(cx, o) {
+        return;
+    }
+    for i in cx.scripted() {
+        let sc_conn = &cx.sc.conns[i];
+        let rq = &cx.reqs[i];
+        let range = match rq.header("Range") {
+            Some(r) => r.to_string(),
+            None => continue,
+        };
+        if !sc_conn.strict() || rq.method != "GET" || !cx.wellformed_req(i) {
+            continue;
+        }
+        let lk = model::lookup(&cx.fs, &rq.target);
+        let file = match lk.allowed.as_slice() {
+            [Answer::File(p)] => cx.fs.file(p).cloned().unwrap_or_default(),
+            _ => continue,
+        };
+        if cx.complete(i).is_err() {
+            // no answer at all is a C03 matter only in so far as "never no answer": attribute to the panic if any
+            if let Some(p) = cx.panic_for_conn(i) {
+                o.evaluated = true;
+                o.verdicts.push(v("C03", format!("no_answer.{}", panic_class(p)), format!("Range: {} on a file of {} bytes: no response ({})", range, file.len(), panic_text(p)), Some(i)));
+            } else {
+                o.inconclusive = Some("a connection got no complete response (C04)".into());
+            }
+            continue;
+        }
+        o.evaluated = true;
+        let resp = cx.resp(i).unwrap();
+        let l = file.len() as u64;
+        let cls = model::classify_range(&range, l);
+        let ctx_txt = format!("GET {} Range: {} (file of {} bytes)", rq.target, range, l);
+        let cname = match &cls {
+            RangeClass::InFile(_) => "in_file",
+            RangeClass::Outside(_) => "outside",
+            RangeClass::Malformed => "malformed",
+        };
+        // gather what was sent as (label, bytes) parts
+        let ctype = resp.get("Content-Type").unwrap_or("").to_string();
+        let parts: Result<Vec<(String, Vec<u8>)>, String> = if let Some(b) = wire::boundary_of(&ctype) {
+            wire::parse_multipart(&resp.body, &b).and_then(|ps| ps.into_iter().map(|p| p.get("Content-Range").map(|l| (l.to_string(), p.body.clone())).ok_or_else(|| "multipart.part_without_content_range".to_string())).collect())
+        } else {
+            Ok(vec![(resp.get("Content-Range").unwrap_or("").to_string(), resp.body.clone())])
+        };
+        match (&cls, resp.code) {
+            (RangeClass::InFile(want), 206) => match parts {
+                Err(e) => o.verdicts.push(v("C03", format!("in_file.{}", e), format!("{}: {}", ctx_txt, e), Some(i))),
+                Ok(ps) => {
+                    if ps.len() != want.len() {
+                        o.verdicts.push(v("C03", "in_file.part_count", format!("{}: {} ranges requested, {} parts sent", ctx_txt, want.len(), ps.len()), Some(i)));
+                    } else {
+                        for (k, (label, body)) in ps.iter().enumerate() {
+                            match check_slice(label, body, &file) {
+                                Err((kind, e)) => {
+                                    let shape = range_shape(&range, k);
+                                    o.verdicts.push(v("C03", format!("in_file.{}.{}", shape, kind), format!("{}: part {}: {}", ctx_txt, k, e), Some(i)));
+                                    break;
+                                }
+                                Ok((a, b)) => {
+                                    if (a, b) != want[k] {
+                                        let shape = range_shape(&range, k);
+                                        o.verdicts.push(v("C03", format!("in_file.{}.other_offsets", shape), format!("{}: part {} carries bytes {}-{}, requested {}-{}", ctx_txt, k, a, b, want[k].0, want[k].1), Some(i)));
+                                        break;
+                                    }
+                                }
+                            }
+                        }
+                        if ps.len() == 1 && wire::boundary_of(&ctype).is_none() {
+                            let n = resp.get("Content-Length").and_then(|x| x.trim().parse::<u64>().ok());
+                            if n != Some(want[0].1 - want[0].0 + 1) {
+                                o.verdicts.push(v("C03", "in_file.content_length", format!("{}: Content-Length {:?}, bytes requested {}", ctx_txt, n, want[0].1 - want[0].0 + 1), Some(i)));
+                            }
+                        }
+                    }
+                }
+            },
+            (RangeClass::InFile(_), code) => {
+                o.verdicts.push(v("C03", format!("in_file.status_{}", code), format!("{}: all ranges lie inside the file, expected 206, got {}", ctx_txt, code), Some(i)));
+            }
+            (_, 416) => {}
+            (RangeClass::Malformed, 200) => {
+                if resp.body != file {
+                    o.verdicts.push(v("C03", "malformed.200_not_whole_file", format!("{}: 200 with {} bytes that are not the file", ctx_txt, resp.body.len()), Some(i)));
+                }
+            }
+            (RangeClass::Outside(_), 200) if l == 0 && resp.body.is_empty() => {}
+            (_, 206) => {
+                // clamped answer: every part must be a correctly labelled slice of the file
+                if l == 0 && resp.body.is_empty() {
+                    continue;
+                }
+                match parts {
+                    Err(e) => o.verdicts.push(v("C03", format!("{}.{}", cname, e), format!("{}: {}", ctx_txt, e), Some(i))),
+                    Ok(ps) => {
+                        for (k, (label, body)) in ps.iter().enumerate() {
+                            match check_slice(label, body, &file) {
+                                Err((kind, e)) => {
+                                    let shape = range_shape(&range, k);
+                                    o.verdicts.push(v("C03", format!("{}.{}.{}", cname, shape, kind), format!("{}: part {}: {}", ctx_txt, k, e), Some(i)));
+                                    break;
+                                }
+                                Ok((a, b)) => {
+                                    if let RangeClass::Outside(w) = &cls {
+                                        if ps.len() == w.len() {
+                                            match w[k] {
+                                                Some((wa, wb)) if a >= wa && b <= wb => {}
+                                                _ => {
+                                                    let shape = range_shape(&range, k);
+                                                    o.verdicts.push(v("C03", format!("outside.{}.bytes_from_other_offsets", shape), format!("{}: part {} carries bytes {}-{}, which is not inside requested ∩ file {:?}", ctx_txt, k, a, b, w[k]), Some(i)));
+                                                    break;
+                                                }
+                                            }
+                                        }
+                                    }
+                                }
+                            }
+                        }
+                    }
+                }
+            }
+            (_, code) => {
+                o.verdicts.push(v("C03", format!("{}.status_{}", cname, code), format!("{}: expected 416 or a clamped slice, got {}", ctx_txt, code), Some(i)));
+            }
+        }
+    }
+}
+
+/// shape of the k-th spec of a Range value: first-last / first- / -suffix / other
+fn range_shape(value: &str, k: usize) -> &'static str {
+    let rest = value.trim().strip_prefix("bytes=").unwrap_or("");
+    let spec = rest.split(',').nth(k).unwrap_or("").trim();
+    match spec.split_once('-') {
+        Some((a, b)) if !a.trim().is_empty() && !b.trim().is_empty() => "first_last",
+        Some((a, b)) if !a.trim().is_empty() && b.trim().is_empty() => "open_ended",
+        Some((a, b)) if a.trim().is_empty() && !b.trim().is_empty() => "suffix",
+        _ => "other",
+    }
+}
+
+// ------------------------------------------------------------------------------------------- C01
+
+fn c01(cx: &Ctx, o: &mut Outcome) {
+    let r = cx.r;
+    // O1: universal tripwire, every byte written on every connection, any regime
+    for i in 0..r.conns.len() {
+        let out = &r.conns[i].outbound;
+        if out.is_empty() {
+            continue;
+        }
+        o.evaluated = true;
+        if let Some(pos) = crate::util::find(out, b"S3CR3T-") {
+            let end = (pos + 48).min(out.len());
+            let target = cx.reqs[i].target.clone();
+            let shape = target_shape(&target);
+            o.verdicts.push(v("C01", format!("secret_disclosed.{}", shape), format!("request {:?} was answered with the content of a file outside the served directory: ...{}...", escape_trunc(&cx.reqs_bytes(i), 120), escape_trunc(&out[pos..end], 60)), Some(i)));
+        }
+        if contains(out, b"root:x:0:0:") {
+            o.verdicts.push(v("C01", "system_file_disclosed", format!("request {:?} was answered with /etc/passwd", escape_trunc(&cx.reqs_bytes(i), 120)), Some(i)));
+        }
+    }
+    // O2: a target that climbs above the served directory is answered with an error status
+    for i in cx.scripted() {
+        if !cx.sc.conns[i].strict() {
+            continue;
+        }
+        let resp = match cx.resp(i) {
+            Some(x) => x,
+            None => continue,
+        };
+        let t = &cx.reqs[i].target;
+        if !t.starts_with('/') || !cx.wellformed_req(i) {
+            continue;
+        }
+        let end = t.find(|c| c == '?' || c == '#').unwrap_or(t.len());
+        let path = &t[..end];
+        if model::climbs(path) || model::climbs(&model::percent_decode_once(path)) {
+            if resp.code < 400 {
+                let served = marker_scan(cx, &resp.body, &[]);
+                o.verdicts.push(v("C01", format!("climb_not_refused.{}", target_shape(t)), format!("target {:?} climbs above the served directory and was answered with status {}{}", t, resp.code, served.map(|m| format!(" and the content of {}", m)).unwrap_or_default()), Some(i)));
+            }
+        }
+    }
+}
+
+/// coarse shape of a request target, used to key findings
+fn target_shape(t: &str) -> &'static str {
+    let lower = t.to_ascii_lowercase();
+    let enc = lower.contains("%2e") || lower.contains("%2f") || lower.contains("%5c");
+    if !t.starts_with('/') {
+        return if t.contains("://") { "absolute_form" } else { "no_leading_slash" };
+    }
+    if enc {
+        return "encoded_dots";
+    }
+    if t.contains("..") {
+        return "dot_dot_segments";
+    }
+    "other"
+}
+
+// ------------------------------------------------------------------------------------------- C09
+
+fn header_map(resp: &Resp) -> Vec<(String, String)> {
+    let mut h: Vec<(String, String)> = resp.headers.iter().filter(|(n, _)| !n.eq_ignore_ascii_case("Date-Unix-Epoch-Nanos")).map(|(n, v)| (n.to_ascii_lowercase(), v.clone())).collect();
+    h.sort();
+    h
+}
+
+fn c09(cx: &Ctx, o: &mut Outcome) {
+    if run_cut_short(cx, o) {
+        return;
+    }
+    // connections come in groups: a GET and its HEAD / OPTIONS twins
+    for i in cx.scripted() {
+        let sc_conn = &cx.sc.conns[i];
+        let t = match sc_conn.twin {
+            Some(t) => t,
+            None => continue,
+        };
+        if !sc_conn.strict() || !cx.sc.conns[t].strict() || !cx.wellformed_req(i) || !cx.wellformed_req(t) {
+            continue;
+        }
+        if cx.reqs[t].method != "GET" || cx.reqs[t].target != cx.reqs[i].target || cx.reqs[t].headers != cx.reqs[i].headers {
+            continue;
+        }
+        let (get, other) = match (cx.resp(t), cx.resp(i)) {
+            (Some(a), Some(b)) => (a, b),
+            _ => {
+                o.inconclusive = Some("a connection got no complete response (C04)".into());
+                continue;
+            }
+        };
+        if !(get.code >= 200 && get.code < 300) {
+            continue; // "for any path that GET serves"
+        }
+        o.evaluated = true;
+        let target = &cx.reqs[i].target;
+        let route = route_kind(cx, target);
+        match cx.reqs[i].method.as_str() {
+            "HEAD" => {
+                if other.code != get.code {
+                    o.verdicts.push(v("C09", format!("head.status.{}", route), format!("GET {} -> {}, HEAD -> {}", target, get.code, other.code), Some(i)));
+                    continue;
+                }
+                if !other.body.is_empty() {
+                    o.verdicts.push(v("C09", format!("head.has_body.{}", route), format!("HEAD {} carries {} body bytes", target, other.body.len()), Some(i)));
+                }
+                let (hg, ho) = (header_map(get), header_map(other));
+                if hg != ho {
+                    let diff: Vec<String> = hg.iter().filter(|x| !ho.contains(x)).map(|(n, v)| format!("GET has {}: {}", n, v)).chain(ho.iter().filter(|x| !hg.contains(x)).map(|(n, v)| format!("HEAD has {}: {}", n, v))).take(4).collect();
+                    o.verdicts.push(v("C09", format!("head.headers_differ.{}", route), format!("HEAD {}: {}", target, diff.join("; ")), Some(i)));
+                }
+                if let Some(cl) = other.get("Content-Length").and_then(|x| x.trim().parse::<usize>().ok()) {
+                    if cl != get.body.len() && wire::boundary_of(get.get("Content-Type").unwrap_or("")).is_none() {
+                        o.verdicts.push(v("C09", format!("head.content_length.{}", route), format!("HEAD {}: Content-Length {} but the GET body has {} bytes", target, cl, get.body.len()), Some(i)));
+                    }
+                }
+            }
+            "OPTIONS" => {
+                if !(other.code >= 200 && other.code < 300) {
+                    o.verdicts.push(v("C09", format!("options.status.{}", route), format!("GET {} -> {}, OPTIONS -> {}", target, get.code, other.code), Some(i)));
+                    continue;
+                }
+                if !other.body.is_empty() {
+                    o.verdicts.push(v("C09", format!("options.has_body.{}", route), format!("OPTIONS {} carries {} body bytes", target, other.body.len()), Some(i)));
+                }
+                // preflight grants when the Origin is allowed by the configuration
+                if let Some(origin) = cx.reqs[i].header("Origin") {
+                    let cfg = model::cors_cfg(&cx.sc.env);
+                    let allowed = cfg.allow_all || cfg.origins.iter().any(|x| x == origin);
+                    if allowed {
+                        if other.get("Access-Control-Allow-Origin") != Some(origin) {
+                            o.verdicts.push(v("C09", format!("options.no_preflight_grant.{}", route), format!("OPTIONS {} with allowed Origin {}: Access-Control-Allow-Origin is {:?}", target, origin, other.get("Access-Control-Allow-Origin")), Some(i)));
+                        }
+                    }
+                }
+            }
+            _ => {}
+        }
+    }
+}
+
+fn route_kind(cx: &Ctx, target: &str) -> &'static str {
+    let end = target.find(|c| c == '?' || c == '#').unwrap_or(target.len());
+    let p = &target[..end];
+    if p == "/" {
+        return "root_page";
+    }
+    if ["/style.css", "/script.js", "/favicon.svg"].contains(&p) {
+        let lk = model::lookup(&cx.fs, p);
+        if lk.allowed.is_empty() {
+            return "builtin_page";
+        }
+    }
+    match model::lookup(&cx.fs, p).note {
+        "file" => "static_file",
+        "directory index" => "directory_index",
+        ".html fallback" => "html_fallback",
+        _ => "other",
+    }
+}
+
+// ------------------------------------------------------------------------------------------- C11
+
+fn c11(cx: &Ctx, o: &mut Outcome) {
+    if run_cut_short(cx, o) {
+        return;
+    }
+    let cfg = model::cors_cfg(&cx.sc.env);
+    for i in cx.scripted() {
+        if !cx.sc.conns[i].strict() || !cx.wellformed_req(i) {
+            continue;
+        }
+        let resp = match cx.resp(i) {
+            Some(x) => x,
+            None => {
+                o.inconclusive = Some("a connection got no complete response (C04)".into());
+                continue;
+            }
+        };
+        o.evaluated = true;
+        let rq = &cx.reqs[i];
+        let origin = rq.header("Origin");
+        let acs: Vec<&(String, String)> = resp.headers.iter().filter(|(n, _)| n.to_ascii_lowercase().starts_with("access-control-")).collect();
+        let get = |n: &str| resp.get(n);
+        let req_txt = format!("{} {} Origin: {:?}", rq.method, rq.target, origin);
+        let cfg_txt = format!("allow_all={} origins={:?}", cfg.allow_all, cfg.origins);
+        match origin {
+            None => {
+                if !acs.is_empty() {
+                    o.verdicts.push(v("C11", "grant_without_origin", format!("{} ({}): response carries {:?}", req_txt, cfg_txt, acs), Some(i)));
+                }
+            }
+            Some(org) => {
+                if cfg.allow_all {
+                    if get("Access-Control-Allow-Origin") != Some(org) {
+                        o.verdicts.push(v("C11", "allow_all.origin_not_echoed", format!("{} ({}): Access-Control-Allow-Origin is {:?}", req_txt, cfg_txt, get("Access-Control-Allow-Origin")), Some(i)));
+                    }
+                    if get("Access-Control-Allow-Credentials").map(|x| x.eq_ignore_ascii_case("true")) != Some(true) {
+                        o.verdicts.push(v("C11", "allow_all.credentials_not_allowed", format!("{} ({}): Access-Control-Allow-Credentials is {:?}", req_txt, cfg_txt, get("Access-Control-Allow-Credentials")), Some(i)));
+                    }
+                } else {
+                    let member = cfg.origins.iter().any(|x| x == org);
+                    if !member {
+                        if !acs.is_empty() {
+                            o.verdicts.push(v("C11", format!("grant_to_unlisted_origin.{}", origin_relation(org, &cfg.origins)), format!("{} ({}): the Origin is not one of the configured origins but the response carries {:?}", req_txt, cfg_txt, acs.iter().map(|(n, v)| format!("{}: {}", n, v)).collect::<Vec<_>>()), Some(i)));
+                        }
+                    } else {
+                        if get("Access-Control-Allow-Origin") != Some(org) {
+                            o.verdicts.push(v("C11", "listed_origin_not_granted", format!("{} ({}): Access-Control-Allow-Origin is {:?}", req_txt, cfg_txt, get("Access-Control-Allow-Origin")), Some(i)));
+                        }
+                        let cred = get("Access-Control-Allow-Credentials").map(|x| x.eq_ignore_ascii_case("true")).unwrap_or(false);
+                        if cred != cfg.credentials {
+                            o.verdicts.push(v("C11", "credentials_grant_differs_from_configuration", format!("{} ({}, credentials={}): Access-Control-Allow-Credentials is {:?}", req_txt, cfg_txt, cfg.credentials, get("Access-Control-Allow-Credentials")), Some(i)));
+                        }
+                        if rq.method == "OPTIONS" && resp.code < 400 && get("Access-Control-Allow-Origin").is_some() {
+                            let mut cmp = |name: &str, want: &Vec<String>| {
+                                let got = model::token_set(get(name).unwrap_or(""));
+                                let want_set = model::token_set(&want.join(","));
+                                if got != want_set {
+                                    o.verdicts.push(v("C11", format!("preflight_list_differs.{}", name), format!("{} ({}): {} lists {:?}, configured {:?}", req_txt, cfg_txt, name, got, want_set), Some(i)));
+                                }
+                            };
+                            cmp("Access-Control-Allow-Methods", &cfg.methods);
+                            cmp("Access-Control-Allow-Headers", &cfg.headers);
+                            if get("Access-Control-Max-Age").map(|x| x.trim()) != Some(cfg.max_age.as_str()) {
+                                o.verdicts.push(v("C11", "preflight_max_age_differs", format!("{} ({}): Access-Control-Max-Age {:?}, configured {:?}", req_txt, cfg_txt, get("Access-Control-Max-Age"), cfg.max_age), Some(i)));
+                            }
+                        }
+                    }
+                }
+            }
+        }
+    }
+}
+
+fn origin_relation(org: &str, list: &[String]) -> &'static str {
+    if org.is_empty() {
+        return "empty";
+    }
+    if list.iter().any(|x| x.eq_ignore_ascii_case(org)) {
+        return "case_variant";
+    }
+    if list.iter().any(|x| x.starts_with(org)) {
+        return "prefix";
+    }
+    if list.iter().any(|x| x.ends_with(org)) {
+        return "suffix";
+    }
+    if list.iter().any(|x| x.contains(org)) {
+        return "substring";
+    }
+    if list.join(",").contains(org) {
+        return "substring_of_joined_list";
+    }
+    "unrelated"
+}
+
+// ------------------------------------------------------------------------------------------- C08
+
+fn c08(cx: &Ctx, o: &mut Outcome) {
+    if run_cut_short(cx, o) {
+        return;
+    }
+    // the solo references were computed before the run by fresh node processes
+    let refs = crate::solo::references();
+    for i in cx.scripted() {
+        let sc_conn = &cx.sc.conns[i];
+        if !sc_conn.strict() {
+            continue;
+        }
+        let want = match refs.get(&sc_conn.request.0) {
+            Some(w) => w,
+            None => continue,
+        };
+        o.evaluated = true;
+        let got = normalise_echo(&cx.r.conns[i].outbound);
+        let want_n = normalise_echo(want);
+        if got != want_n {
+            // whose data is it?
+            let mut foreign = None;
+            for j in cx.scripted() {
+                if j != i {
+                    if let Some(w) = refs.get(&cx.sc.conns[j].request.0) {
+                        if normalise_echo(w) == got && cx.sc.conns[j].request != sc_conn.request {
+                            foreign = Some(j);
+                        }
+                    }
+                }
+            }
+            let class = if foreign.is_some() { "response_of_another_connection" } else { "differs_from_solo_response" };
+            o.verdicts.push(v("C08", class, format!("request {:?} served concurrently got {} bytes {:?}; alone it gets {} bytes {:?}{}", escape_trunc(&sc_conn.request.0, 100), got.len(), escape_trunc(&first_diff(&got, &want_n), 80), want_n.len(), escape_trunc(&first_diff(&want_n, &got), 80), foreign.map(|j| format!(" (it is the solo response of connection {})", j)).unwrap_or_default()), Some(i)));
+        }
+    }
+}
+
+fn first_diff(a: &[u8], b: &[u8]) -> Vec<u8> {
+    let k = a.iter().zip(b.iter()).position(|(x, y)| x != y).unwrap_or(a.len().min(b.len()));
+    let s = k.saturating_sub(20);
+    a[s..(k + 60).min(a.len())].to_vec()
+}
+
+#[allow(dead_code)]
+fn _unused(_: &ConnState) {}
